@@ -694,56 +694,205 @@ Proof.
   rewrite D1, D2. reflexivity.
 Qed.
 
-(** -c options: shapes of rank 1..3 with lengths 1..12, and NONE (a complete finite domain; the general statement
-    needs [atoi (print_nat n) = n] for all n < 10^9 and an induction over the rank, not proved here) *)
-Definition small_lens : list Z := zrange 1 (Z.to_nat 12).
-Definition chunk_domain : list (Z * list Z) :=
-  (-2, []) :: map (fun a => (1, [a])) small_lens ++
-  flat_map (fun a => map (fun b => (2, [a; b])) small_lens) small_lens ++
-  flat_map (fun a => flat_map (fun b => map (fun c => (3, [a; b; c])) small_lens) small_lens) small_lens.
-
-Definition chunk_tail (r : Z) (lens : list Z) : str :=
-  if r =? -2 then kw_NONE else join ch_x (map print_nat lens).
-
-Definition chunk_tail_ok (rl : Z * list Z) : bool :=
-  let '(r, lens) := rl in
-  negb (existsb (Z.eqb ch_colon) (chunk_tail r lens)) && negb (str_eqb (chunk_tail r lens) []) &&
-  match chunk_loop (chunk_tail r lens) [] [] with
-  | ROk e => (ke_rank e =? r) && str_eqb (ke_lens e) lens
-  | _ => false
-  end.
-
-Lemma chunk_domain_ok : forallb chunk_tail_ok chunk_domain = true.
-Proof. vm_compute. reflexivity. Qed.
-
 Lemma str_eqb_eq : forall a b, str_eqb a b = true -> a = b.
 Proof.
   induction a as [|x a IH]; destruct b as [|y b]; simpl; intro H; try discriminate; [reflexivity|].
   apply andb_true_iff in H. destruct H as [H1 H2]. apply Z.eqb_eq in H1. subst. f_equal. apply IH. exact H2.
 Qed.
 
-Lemma parse_print_chunk_partial_lemma : forall names r lens,
-  names <> [] -> Forall wf_name names -> In (r, lens) chunk_domain ->
+
+(** * Decimal printing and atoi *)
+Lemma is_digit_spec : forall c, is_digit c = true <-> 48 <= c <= 57.
+Proof. intro c. unfold is_digit. rewrite andb_true_iff, !Z.leb_le. tauto. Qed.
+
+Lemma atoi_acc_app : forall ds a rest, Forall (fun c => is_digit c = true) ds ->
+  atoi_acc a (ds ++ rest) = atoi_acc (fold_left (fun x c => x * 10 + (c - 48)) ds a) rest.
+Proof.
+  induction ds as [|c ds IH]; intros a rest Hf; simpl; [reflexivity|].
+  inversion Hf; subst. rewrite H1. apply IH. assumption.
+Qed.
+
+(** digits_acc produces the decimal digits of n in front of the accumulator *)
+Lemma digits_acc_spec : forall f n acc, 0 <= n < 10 ^ Z.of_nat f -> (0 < f)%nat ->
+  exists ds, digits_acc f n acc = ds ++ acc /\ Forall (fun c => is_digit c = true) ds /\ ds <> [] /\
+             (length ds <= f)%nat /\ (forall a, fold_left (fun x c => x * 10 + (c - 48)) ds a = a * 10 ^ Z.of_nat (length ds) + n) /\
+             (0 < n -> hd 0 ds <> 48).
+Proof.
+  induction f as [|f IH]; intros n acc Hn Hf; [inversion Hf|].
+  cbn [digits_acc]. destruct (n <? 10) eqn:E.
+  - apply Z.ltb_lt in E. exists [48 + n]. split; [reflexivity|]. split.
+    { constructor; [|constructor]. apply is_digit_spec. lia. }
+    split; [discriminate|]. split; [simpl; lia|]. split.
+    { intro a. cbn [fold_left length]. change (Z.of_nat 1) with 1. rewrite Z.pow_1_r. lia. }
+    { intro Hp. cbn [hd]. lia. }
+  - apply Z.ltb_ge in E.
+    assert (Hf' : (0 < f)%nat).
+    { destruct f; [|lia]. simpl in Hn. lia. }
+    assert (Hq : 0 <= n / 10 < 10 ^ Z.of_nat f).
+    { split; [apply Z.div_pos; lia|]. apply Z.div_lt_upper_bound; [lia|].
+      rewrite Nat2Z.inj_succ, Z.pow_succ_r in Hn by lia. lia. }
+    destruct (IH (n / 10) ((48 + n mod 10) :: acc) Hq Hf') as [ds [H1 [H2 [H3 [H4 [H5 H6]]]]]].
+    exists (ds ++ [48 + n mod 10]). split; [rewrite H1, <- app_assoc; reflexivity|]. split.
+    { apply Forall_app. split; [exact H2|]. constructor; [|constructor]. apply is_digit_spec.
+      pose proof (Z.mod_pos_bound n 10 ltac:(lia)). lia. }
+    split; [destruct ds; discriminate|]. split; [rewrite app_length; cbn [length]; lia|]. split.
+    { intro a. rewrite fold_left_app. cbn [fold_left]. rewrite H5. rewrite app_length. cbn [length].
+      rewrite Nat2Z.inj_add. change (Z.of_nat 1) with 1. rewrite Z.pow_add_r by lia. rewrite Z.pow_1_r.
+      pose proof (Z.div_mod n 10 ltac:(lia)). set (P := 10 ^ Z.of_nat (length ds)). nia. }
+    { intro Hp. destruct ds as [|d ds']; [contradiction|]. cbn [hd app]. cbn [hd] in H6. apply H6.
+      apply Z.div_str_pos. lia. }
+Qed.
+
+Lemma print_nat_spec : forall n, 0 <= n < 10 ^ 9 ->
+  Forall (fun c => is_digit c = true) (print_nat n) /\ print_nat n <> [] /\ zlen (print_nat n) <= 9 /\
+  atoi (print_nat n) = n /\ (0 < n -> hd 0 (print_nat n) <> 48).
+Proof.
+  intros n Hn. unfold print_nat.
+  destruct (digits_acc_spec 9 n [] ltac:(simpl Z.of_nat; lia) ltac:(lia)) as [ds [H1 [H2 [H3 [H4 [H5 H6]]]]]].
+  rewrite app_nil_r in H1. rewrite H1.
+  split; [exact H2|]. split; [exact H3|]. split; [unfold zlen; lia|]. split; [|exact H6].
+  unfold atoi. rewrite <- (app_nil_r ds). rewrite atoi_acc_app by exact H2. cbn [atoi_acc]. rewrite H5. lia.
+Qed.
+
+(** * parse_chunk on a printed shape *)
+Lemma digit_not_x : forall c, is_digit c = true -> (c =? ch_x) = false.
+Proof. intros c H. apply is_digit_spec in H. apply Z.eqb_neq. unfold ch_x. lia. Qed.
+
+Lemma chunk_loop_digits : forall ds rest seg lens0,
+  Forall (fun c => is_digit c = true) ds -> zlen seg + zlen ds <= 9 -> rest <> [] ->
+  chunk_loop (ds ++ rest) seg lens0 = chunk_loop rest (rev ds ++ seg) lens0.
+Proof.
+  induction ds as [|c ds IH]; intros rest seg lens0 Hf Hlen Hr; [reflexivity|].
+  inversion Hf as [|? ? Hc Hds]; subst.
+  cbn [app chunk_loop]. rewrite Hc. cbn [orb negb]. rewrite (digit_not_x _ Hc). cbn [negb andb].
+  assert (E : (9 <? zlen seg + 1) = false).
+  { apply Z.ltb_ge. unfold zlen in *. cbn [length] in Hlen. lia. }
+  rewrite E.
+  destruct (ds ++ rest) as [|y ys] eqn:Eapp.
+  { destruct ds; [cbn [app] in Eapp; contradiction | discriminate]. }
+  rewrite <- Eapp. rewrite IH; [|assumption| |assumption].
+  - cbn [rev]. rewrite <- app_assoc. reflexivity.
+  - unfold zlen in *. cbn [length] in *. lia.
+Qed.
+
+Lemma x_in_alphabet : existsb (Z.eqb ch_x) chunk_alphabet = true.
+Proof. vm_compute. reflexivity. Qed.
+
+Lemma chunk_loop_x : forall rest seg lens0,
+  rest <> [] -> atoi (rev seg) <> 0 -> zlen lens0 < H4_MAX_VAR_DIMS ->
+  chunk_loop (ch_x :: rest) seg lens0 = chunk_loop rest [] (atoi (rev seg) :: lens0).
+Proof.
+  intros rest seg lens0 Hr Ha Hl. cbn [chunk_loop]. rewrite x_in_alphabet. rewrite orb_true_r. cbn [negb].
+  rewrite Z.eqb_refl. cbn [negb andb].
+  destruct rest as [|y ys]; [contradiction|].
+  assert (E1 : (atoi (rev seg) =? 0) = false) by (apply Z.eqb_neq; exact Ha). rewrite E1.
+  assert (E2 : (H4_MAX_VAR_DIMS <=? zlen lens0) = false) by (apply Z.leb_gt; exact Hl). rewrite E2.
+  reflexivity.
+Qed.
+
+Lemma chunk_loop_last : forall ds lens0,
+  Forall (fun c => is_digit c = true) ds -> ds <> [] -> zlen ds <= 9 -> atoi ds <> 0 ->
+  zlen lens0 < H4_MAX_VAR_DIMS ->
+  chunk_loop ds [] lens0 = ROk {| ke_names := []; ke_rank := zlen lens0 + 1; ke_lens := rev (atoi ds :: lens0) |}.
+Proof.
+  intros ds lens0 Hf Hne Hlen Hn Hl.
+  destruct (exists_last Hne) as [ds' [c E]]. subst ds.
+  apply Forall_app in Hf. destruct Hf as [Hf' Hc]. inversion Hc as [|? ? Hc' _]; subst.
+  rewrite chunk_loop_digits; [|exact Hf'| |discriminate].
+  2:{ unfold zlen in *. rewrite app_length in Hlen. cbn [length] in *. lia. }
+  cbn [chunk_loop]. rewrite Hc'. cbn [orb negb]. rewrite (digit_not_x _ Hc'). cbn [negb andb].
+  assert (E : (9 <? zlen (rev ds' ++ []) + 1) = false).
+  { apply Z.ltb_ge. unfold zlen in *. rewrite app_nil_r, rev_length. rewrite app_length in Hlen. cbn [length] in Hlen. lia. }
+  rewrite E. rewrite app_nil_r. cbn [rev]. rewrite rev_involutive.
+  assert (EN : str_eqb (ds' ++ [c]) kw_NONE = false).
+  { destruct ds' as [|d ds'']; cbn [app str_eqb kw_NONE].
+    - apply is_digit_spec in Hc'. assert (X : (c =? 78) = false) by (apply Z.eqb_neq; lia). rewrite X. reflexivity.
+    - inversion Hf'; subst. apply is_digit_spec in H1. assert (X : (d =? 78) = false) by (apply Z.eqb_neq; lia).
+      rewrite X. reflexivity. }
+  rewrite EN.
+  assert (E1 : (atoi (ds' ++ [c]) =? 0) = false) by (apply Z.eqb_neq; exact Hn). rewrite E1.
+  assert (E2 : (H4_MAX_VAR_DIMS <=? zlen lens0) = false) by (apply Z.leb_gt; exact Hl). rewrite E2.
+  reflexivity.
+Qed.
+
+Definition wf_len (l : Z) : Prop := 1 <= l < 10 ^ 9.
+
+Lemma join_x_nonempty : forall ls, ls <> [] -> Forall wf_len ls -> join ch_x (map print_nat ls) <> [].
+Proof.
+  intros ls Hne Hf. destruct ls as [|l ls]; [contradiction|]. inversion Hf; subst.
+  destruct (print_nat_spec l ltac:(unfold wf_len in *; lia)) as [_ [Hp _]].
+  cbn [map join]. destruct (map print_nat ls).
+  - exact Hp.
+  - intro H. apply app_eq_nil in H. destruct H. contradiction.
+Qed.
+
+Lemma chunk_loop_shape : forall ls acc, ls <> [] -> Forall wf_len ls ->
+  zlen acc + zlen ls <= H4_MAX_VAR_DIMS ->
+  chunk_loop (join ch_x (map print_nat ls)) [] acc =
+  ROk {| ke_names := []; ke_rank := zlen acc + zlen ls; ke_lens := rev acc ++ ls |}.
+Proof.
+  induction ls as [|l ls IH]; intros acc Hne Hf Hlen; [contradiction|].
+  inversion Hf as [|? ? Hl Hls]; subst.
+  destruct (print_nat_spec l ltac:(unfold wf_len in *; lia)) as [Hd [Hp [Hz [Ha _]]]].
+  destruct ls as [|l2 ls'].
+  - cbn [map join]. rewrite (chunk_loop_last _ acc Hd Hp Hz).
+    + rewrite Ha. unfold zlen. cbn [length rev]. f_equal.
+    + rewrite Ha. unfold wf_len in Hl. lia.
+    + unfold zlen in *. cbn [length] in Hlen. lia.
+  - change (join ch_x (map print_nat (l :: l2 :: ls'))) with
+      (print_nat l ++ ch_x :: join ch_x (map print_nat (l2 :: ls'))).
+    rewrite chunk_loop_digits; [|exact Hd|unfold zlen in *; cbn [length]; lia|discriminate].
+    rewrite app_nil_r.
+    rewrite chunk_loop_x.
+    + rewrite rev_involutive, Ha. rewrite IH; [|discriminate|exact Hls|].
+      * replace (zlen (l :: acc) + zlen (l2 :: ls')) with (zlen acc + zlen (l :: l2 :: ls')) by (unfold zlen; cbn [length]; lia).
+        cbn [rev]. rewrite <- app_assoc. reflexivity.
+      * unfold zlen in *. cbn [length] in *. lia.
+    + apply join_x_nonempty; [discriminate|exact Hls].
+    + rewrite rev_involutive, Ha. unfold wf_len in Hl. lia.
+    + unfold zlen in *. cbn [length] in *. lia.
+Qed.
+
+Lemma no_colon_digits : forall ds, Forall (fun c => is_digit c = true) ds -> ~ In ch_colon ds.
+Proof.
+  intros ds Hf Hin. rewrite Forall_forall in Hf. specialize (Hf _ Hin). apply is_digit_spec in Hf. unfold ch_colon in Hf. lia.
+Qed.
+
+Lemma join_x_no_colon : forall ls, Forall wf_len ls -> ~ In ch_colon (join ch_x (map print_nat ls)).
+Proof.
+  induction ls as [|l ls IH]; intro Hf; [simpl; auto|].
+  inversion Hf as [|? ? Hl Hls]; subst.
+  destruct (print_nat_spec l ltac:(unfold wf_len in *; lia)) as [Hd _].
+  destruct ls as [|l2 ls'].
+  - cbn [map join]. apply no_colon_digits. exact Hd.
+  - change (join ch_x (map print_nat (l :: l2 :: ls'))) with (print_nat l ++ ch_x :: join ch_x (map print_nat (l2 :: ls'))).
+    intro H. apply in_app_or in H. destruct H as [H|H]; [exact (no_colon_digits _ Hd H)|].
+    destruct H as [H|H]; [unfold ch_x, ch_colon in H; discriminate|].
+    exact (IH Hls H).
+Qed.
+
+(** parse_print_chunk, full: any non-empty list of well-formed names with NONE, or with a shape of 1 to
+    H4_MAX_VAR_DIMS lengths between 1 and 10^9 - 1 (nine digits: all the parser's buffer takes) *)
+Lemma parse_print_chunk_lemma : forall names r lens,
+  names <> [] -> Forall wf_name names ->
+  (r = -2 /\ lens = [] \/ r = zlen lens /\ lens <> [] /\ zlen lens <= H4_MAX_VAR_DIMS /\ Forall wf_len lens) ->
   parse_chunk (print_chunk {| ke_names := names; ke_rank := r; ke_lens := lens |}) =
   ROk {| ke_names := names; ke_rank := r; ke_lens := lens |}.
 Proof.
-  intros names r lens Hne Hf Hin.
-  pose proof chunk_domain_ok as D. rewrite forallb_forall in D. specialize (D _ Hin). clear Hin.
-  unfold chunk_tail_ok in D. apply andb_true_iff in D. destruct D as [D Dp].
-  apply andb_true_iff in D. destruct D as [Dc De].
-  apply negb_true_iff in Dc. apply existsb_eqb_In in Dc. apply negb_true_iff in De.
+  intros names r lens Hne Hf Hd.
   unfold parse_chunk, print_chunk. cbn [ke_names ke_rank ke_lens].
-  change (if r =? -2 then kw_NONE else join ch_x (map print_nat lens)) with (chunk_tail r lens).
-  rewrite split_last_app by exact Dc.
-  rewrite parse_names_join by assumption.
-  match goal with |- (if ?c then _ else _) = _ => replace c with false by (symmetry; exact De) end.
-  match goal with |- match ?x with ROk _ => _ | RErr => _ | RUndef => _ end = _ => remember x as cl eqn:Ecl end.
-  assert (Dp' : match cl with ROk e => (ke_rank e =? r) && str_eqb (ke_lens e) lens | _ => false end = true)
-    by (subst cl; exact Dp).
-  clear Dp Ecl. rename Dp' into Dp.
-  destruct cl as [e'| |]; try discriminate.
-  apply andb_true_iff in Dp. destruct Dp as [D1 D2]. apply Z.eqb_eq in D1. apply str_eqb_eq in D2.
-  rewrite D1, D2. reflexivity.
+  destruct Hd as [[Hr Hl]|[Hr [Hl [Hm Hw]]]].
+  - subst. cbn [Z.eqb]. 
+    rewrite split_last_app by (vm_compute; intuition discriminate).
+    rewrite parse_names_join by assumption. vm_compute. reflexivity.
+  - assert (E : (r =? -2) = false) by (apply Z.eqb_neq; unfold zlen in Hr; lia). rewrite E.
+    rewrite split_last_app by (apply join_x_no_colon; exact Hw).
+    rewrite parse_names_join by assumption.
+    pose proof (join_x_nonempty lens Hl Hw) as Hn.
+    destruct (join ch_x (map print_nat lens)) as [|c0 t0] eqn:Ej; [contradiction|].
+    cbn [str_eqb]. rewrite <- Ej.
+    rewrite (chunk_loop_shape lens [] Hl Hw) by (unfold zlen in *; cbn [length]; lia).
+    cbn [ke_rank ke_lens rev app]. unfold zlen at 1. cbn [length]. rewrite Hr. reflexivity.
 Qed.
 
 (** * The strip-mining loop of copy_sds visits every cell of the array exactly once, in row-major order *)
